@@ -36,10 +36,12 @@ def _state_val(kind, expected):
     return {"expected": bytes([expected]), "plus1": bytes([expected + 1]), "minus1": bytes([expected - 1]), "zero": b"\x00", "absent": None, "2byte": bytes([expected, 0])}[kind]
 
 
-def _assemble(state, error, others, errpos):
+def _assemble(state, error, others, errpos, extra=None):
     items = []
     if state is not None:
         items.append((hap.T_STATE, state))
+    if extra is not None:
+        items.append((extra, b"\x05"))  # e.g. kTLVType_RetryDelay, which HAP sends along with a Backoff error
     items += others
     if error is not None:
         e = (hap.T_ERROR, error)
@@ -62,14 +64,16 @@ def _judge(st, err, state_kind, det):
     if st.kind != "raise":
         which = "error" if err != "absent" else "wrong-state"
         sa = "state-absent" if state_kind == "absent" else ("state-wrong" if wrong_state else "state-ok")
-        return [(f"{det['step']}:{which}-reply-completes:{sa}:{det['style']}", det)]
+        ex = ":after-unexpected-field" if det.get("extra") is not None else ""
+        return [(f"{det['step']}:{which}-reply-completes:{sa}:{det['style']}{ex}", det)]
     if wrong_state:
         return []  # any exception (weakest reading: either class)
     want = MAPPED.get(err)
     if want is None:  # malformed error value: any documented class
         return [] if name in DOCUMENTED else [(f"{det['step']}:malformed-error-raises-undocumented:{name}:{det['style']}", det)]
     if name != want:
-        return [(f"{det['step']}:error-{err}-raises-{name}-not-{want}:{det['style']}", det)]
+        ex = ":after-unexpected-field" if det.get("extra") is not None else ""
+        return [(f"{det['step']}:error-{err}-raises-{name}-not-{want}:{det['style']}{ex}", det)]
     return []
 
 
@@ -82,6 +86,7 @@ def case_cell(p):
     state = _state_val(state_kind, expected_state)
     error = ERRORS[err]
     det = {k: p[k] for k in ("step", "err", "state", "subset", "errpos", "style")}
+    det["extra"] = p.get("extra")
     if step.startswith("setup"):
         run = SetupRun(f"{seed}|c04", style)
         if step == "setup-m2":
@@ -101,7 +106,7 @@ def case_cell(p):
             honest = run.acc.handle_m5(run.m5)
             feed = run.feed
         others = [i for i in honest if i[0] != hap.T_STATE and i[0] in subset]
-        st = feed(_assemble(state, error, others, errpos))
+        st = feed(_assemble(state, error, others, errpos, p.get("extra")))
         return _judge(st, err, state_kind, det)
     # verify
     acc = hap.Identity(f"{seed}|c04", "acc", b"AA:BB:CC:DD:EE:FF")
@@ -115,12 +120,12 @@ def case_cell(p):
     items, shared, acc_pub = hap.pv_m2(acc, C.det_bytes(pin, "acc-eph"), ios_pub)
     if step == "verify-m2":
         others = [i for i in items if i[0] != hap.T_STATE and i[0] in subset]
-        st = pairdrv.send(gen, _assemble(state, error, others, errpos), st.value[1], style)
+        st = pairdrv.send(gen, _assemble(state, error, others, errpos, p.get("extra")), st.value[1], style)
         return _judge(st, err, state_kind, det)
     st = pairdrv.send(gen, tlv8.encode(items), st.value[1], style)
     if st.kind != "request":
         return [("honest-prefix-failed", det)]
-    st = pairdrv.send(gen, _assemble(state, error, [], errpos), st.value[1], style)
+    st = pairdrv.send(gen, _assemble(state, error, [], errpos, p.get("extra")), st.value[1], style)
     return _judge(st, err, state_kind, det)
 
 
@@ -156,6 +161,10 @@ def cells():
                     for errpos in (["last"] if err == "absent" else ["first", "afterstate", "last"]):
                         for style in pairdrv.STYLES:
                             yield ("cell", dict(step=step, err=err, state=state, subset=subset, errpos=errpos, style=style))
+                            if err != "absent" and errpos == "last" and subset == subsets[-1] and state in ("expected", "absent"):
+                                # the same cell with a field the step does not expect (RetryDelay 0x08, an unknown type 0x42) in front of the error
+                                for extra in (8, 0x42):
+                                    yield ("cell", dict(step=step, err=err, state=state, subset=subset, errpos=errpos, style=style, extra=extra))
 
 
 def run(ctx):
